@@ -11,6 +11,14 @@ import framework as fw
 
 
 def main():
+    # scipy's generic discrete ppf doubles its search bracket without bound when asked for a quantile above the (deficient) total mass of the
+    # Schulz-Zimm law (C11's known finding): an address-space limit turns that into a MemoryError inside the draw instead of an OOM kill of the check
+    try:
+        import resource
+        lim = int(os.environ.get("VERIF_MEM_GB", "6")) << 30
+        resource.setrlimit(resource.RLIMIT_AS, (lim, lim))
+    except Exception:
+        pass
     ap = argparse.ArgumentParser()
     ap.add_argument("prop")
     ap.add_argument("--tier", default=os.environ.get("VERIF_TIER", "quick"), choices=["quick", "thorough"])
